@@ -515,3 +515,203 @@ Proof.
   destruct (defaults_noninterference f c i Hw Hw') as [_ [_ [_ N]]].
   destruct (N st st' H H') as [X1 [X2 [X3 [X4 _]]]]. repeat split; assumption.
 Qed.
+
+(** * the arguments whose defaults were NOT changed
+    Class: no [default_value_if] rule of any argument reads an argument whose plain defaults were
+    changed.  Then every id that is not a changed argument reports the same source and the same
+    raw values in both results (the indices of DefaultValue entries may differ: the counter runs
+    over the changed defaults too). *)
+Section Unchanged.
+Variable f : arg -> list bytes.
+Variable c : cmd.
+Notation g := (redef f).
+Notation c' := (with_defaults f c).
+
+Definition changed_id (i : id) : Prop := exists a, In a (c_args c) /\ a_id a = i /\ f a <> a_default a.
+Definition difs_avoid_changed : Prop :=
+  forall b r, In b (c_args c) -> In r (a_default_ifs b) -> ~ changed_id (fst (fst r)).
+Definition view (e : marg) : option src * list (list bytes) := (m_source e, m_raw e).
+Definition agree (m m' : matcher) : Prop :=
+  forall i, ~ changed_id i -> opt_map view (fm_get i (mt_args m)) = opt_map view (fm_get i (mt_args m')).
+
+Lemma agree_rule m m' r : agree m m' -> ~ changed_id (fst (fst r)) -> rule_holds m r = rule_holds m' r.
+Proof.
+  intros Ha Hn. destruct r as [[i p] d]. cbn [fst] in Hn. specialize (Ha i Hn). unfold rule_holds.
+  destruct (fm_get i (mt_args m)) as [e|], (fm_get i (mt_args m')) as [e'|]; cbn [opt_map] in Ha; try discriminate; [|reflexivity].
+  unfold view in Ha. injection Ha as _ Hr. rewrite Hr. reflexivity.
+Qed.
+
+Lemma choice_transfer b m m' ch : f b = a_default b ->
+  (forall r, In r (a_default_ifs b) -> rule_holds m r = rule_holds m' r) ->
+  default_choice b m ch -> default_choice (g b) m' ch.
+Proof.
+  intros Hf Hr H. destruct H as [l1 i p d l2 E Hn Hh|Hn].
+  - apply (DC_rule (g b) m' l1 i p d l2).
+    + exact E.
+    + intros r Hin. rewrite <- Hr; [apply Hn; exact Hin|]. change (a_default_ifs b) with (a_default_ifs b).
+      rewrite E. apply in_or_app. left. exact Hin.
+    + rewrite <- Hr; [exact Hh|]. rewrite E. apply in_or_app. right. left. reflexivity.
+  - replace (if is_nil (a_default b) then None else Some (a_default b))
+      with (if is_nil (a_default (g b)) then None else Some (a_default (g b))).
+    + apply DC_plain. intros r Hin. rewrite <- Hr; [apply Hn; exact Hin|exact Hin].
+    + change (a_default (g b)) with (f b). rewrite Hf. reflexivity.
+Qed.
+
+(** what one [add_default_value] does to the matcher *)
+Lemma adv_effect c0 b s t : mt_pending (mt s) = None -> add_default_value c0 b s = ROk t ->
+  mt_pending (mt t) = None /\
+  (t = s \/ exists raw vs e, fm_get (a_id b) (mt_args (mt s)) = None /\ default_choice b (mt s) (Some raw)
+              /\ delimit c0 b raw None = Some vs /\ mt_args (mt t) = mt_args (mt s) ++ [(a_id b, e)]
+              /\ m_source e = Some SDefault /\ m_raw e = [vs]).
+Proof.
+  intros Hp H. destruct (add_default_value_spec c0 b s t Hp H) as [Hpres Habs].
+  destruct (fm_get (a_id b) (mt_args (mt s))) as [e|] eqn:Eg.
+  - assert (t = s) by (apply Hpres; discriminate). subst t. split; [exact Hp|left; reflexivity].
+  - destruct (Habs eq_refl) as [[raw|] [Hch Hres]].
+    + destruct Hres as [vs [e [Hd [_ [A1 [Se [Re [_ [P1 _]]]]]]]]]. split; [congruence|].
+      right. exists raw, vs, e. repeat split; assumption.
+    + subst t. split; [exact Hp|left; reflexivity].
+Qed.
+
+Lemma agree_append_changed m m' l l' : agree m m' ->
+  (mt_args m = l) -> (mt_args m' = l') ->
+  forall k e (x x' : matcher), changed_id k ->
+  (mt_args x = l \/ mt_args x = l ++ [(k, e)]) -> (mt_args x' = l' \/ exists e', mt_args x' = l' ++ [(k, e')]) -> agree x x'.
+Proof.
+  intros Ha El El' k e x x' Hk Hx Hx' i Hi. specialize (Ha i Hi). rewrite El, El' in Ha.
+  assert (Hne : beq k i = false) by (apply beq_neq; intros ->; exact (Hi Hk)).
+  assert (E1 : fm_get i (mt_args x) = fm_get i l).
+  { destruct Hx as [->| ->]; [reflexivity|]. rewrite fm_get_app. cbn [fm_get]. rewrite Hne. destruct (fm_get i l); reflexivity. }
+  assert (E2 : fm_get i (mt_args x') = fm_get i l').
+  { destruct Hx' as [->|[e' ->]]; [reflexivity|]. rewrite fm_get_app. cbn [fm_get]. rewrite Hne. destruct (fm_get i l'); reflexivity. }
+  rewrite E1, E2. exact Ha.
+Qed.
+
+Hypothesis Hids : NoDup (map a_id (c_args c)).
+Hypothesis Hdif : difs_avoid_changed.
+
+Lemma adv_step b s s' t t' : In b (c_args c) ->
+  mt_pending (mt s) = None -> mt_pending (mt s') = None -> agree (mt s) (mt s') ->
+  add_default_value c b s = ROk t -> add_default_value c' (g b) s' = ROk t' ->
+  agree (mt t) (mt t') /\ mt_pending (mt t) = None /\ mt_pending (mt t') = None.
+Proof.
+  intros Hin Hp Hp' Ha H H'.
+  destruct (adv_effect c b s t Hp H) as [Pt Et]. destruct (adv_effect c' (g b) s' t' Hp' H') as [Pt' Et'].
+  split; [|split; assumption]. change (a_id (g b)) with (a_id b) in Et'.
+  destruct (list_eq_dec (list_eq_dec N.eq_dec) (f b) (a_default b)) as [Hf|Hf].
+  - (* an unchanged argument *)
+    assert (Hnc : ~ changed_id (a_id b)).
+    { intros [a [Hina [Hid Hfa]]]. assert (a = b) by (eapply nodup_map_inj; eassumption). subst a. exact (Hfa Hf). }
+    assert (Hrules : forall r, In r (a_default_ifs b) -> rule_holds (mt s) r = rule_holds (mt s') r).
+    { intros r Hr. apply agree_rule; [exact Ha|]. apply (Hdif b r Hin Hr). }
+    pose proof (Ha (a_id b) Hnc) as Hb.
+    destruct Et as [->|[raw [vs [e [Gn [Hch [Hd [A1 [Se Re]]]]]]]]].
+    + destruct Et' as [->|[raw' [vs' [e' [Gn' [Hch' _]]]]]]; [exact Ha|].
+      (* c adds nothing, c' adds: impossible unless the choices differ *)
+      exfalso. rewrite Gn' in Hb. destruct (fm_get (a_id b) (mt_args (mt s))) as [e0|] eqn:G0; [discriminate|].
+      destruct (add_default_value_spec c b s s Hp H) as [_ Habs]. destruct (Habs G0) as [ch [Hch Hres]].
+      pose proof (choice_transfer b (mt s) (mt s') ch Hf Hrules Hch) as Ht.
+      pose proof (default_choice_det _ _ _ _ Ht Hch') as E. subst ch.
+      destruct Hres as [vs0 [e0 [_ [_ [A0 _]]]]]. apply (f_equal (@length _)) in A0. rewrite app_length in A0. cbn in A0. lia.
+    + pose proof (choice_transfer b (mt s) (mt s') (Some raw) Hf Hrules Hch) as Ht.
+      destruct Et' as [->|[raw' [vs' [e' [Gn' [Hch' [Hd' [A1' [Se' Re']]]]]]]]].
+      * exfalso. rewrite Gn in Hb. destruct (fm_get (a_id b) (mt_args (mt s'))) as [e0|] eqn:G0; [discriminate|].
+        destruct (add_default_value_spec c' (g b) s' s' Hp' H') as [_ Habs]. destruct (Habs G0) as [ch [Hch0 Hres]].
+        pose proof (default_choice_det _ _ _ _ Ht Hch0) as E. subst ch.
+        destruct Hres as [vs0 [e0 [_ [_ [A0 _]]]]]. apply (f_equal (@length _)) in A0. rewrite app_length in A0. cbn in A0. lia.
+      * pose proof (default_choice_det _ _ _ _ Ht Hch') as E. inversion E; subst raw'.
+        change (delimit c' (g b) raw None) with (delimit c b raw None) in Hd'. rewrite Hd in Hd'. inversion Hd'; subst vs'.
+        intros i Hi. rewrite A1, A1', !fm_get_app. specialize (Ha i Hi).
+        destruct (fm_get i (mt_args (mt s))) as [x|], (fm_get i (mt_args (mt s'))) as [x'|]; cbn [opt_map] in Ha |- *; try discriminate; [exact Ha|].
+        cbn [fm_get]. destruct (beq (a_id b) i); [|reflexivity]. cbn [opt_map]. unfold view. rewrite Se, Se', Re, Re'. reflexivity.
+  - (* a changed argument: only its own id is touched *)
+    assert (Hk : changed_id (a_id b)) by (exists b; repeat split; assumption).
+    destruct Et as [->|[raw [vs [e [_ [_ [_ [A1 _]]]]]]]].
+    + apply (agree_append_changed (mt s) (mt s') _ _ Ha eq_refl eq_refl (a_id b) (marg_new false false) _ _ Hk (or_introl eq_refl)).
+      destruct Et' as [->|[raw' [vs' [e' [_ [_ [_ [A1' _]]]]]]]]; [left; reflexivity|right; exists e'; exact A1'].
+    + apply (agree_append_changed (mt s) (mt s') _ _ Ha eq_refl eq_refl (a_id b) e _ _ Hk (or_intror A1)).
+      destruct Et' as [->|[raw' [vs' [e' [_ [_ [_ [A1' _]]]]]]]]; [left; reflexivity|right; exists e'; exact A1'].
+Qed.
+
+Lemma defaults_fold_agree : forall l s s' t t', (forall b, In b l -> In b (c_args c)) ->
+  mt_pending (mt s) = None -> mt_pending (mt s') = None -> agree (mt s) (mt s') ->
+  fold_left (defaults_step c) l (ROk s) = ROk t -> fold_left (defaults_step c') (map g l) (ROk s') = ROk t' ->
+  agree (mt t) (mt t').
+Proof.
+  induction l as [|b l IH]; intros s s' t t' Hl Hp Hp' Ha H H'; cbn [map fold_left] in *.
+  - inversion H; inversion H'; subst. exact Ha.
+  - unfold defaults_step at 2 in H. unfold defaults_step at 2 in H'. cbn [rbind] in H, H'.
+    destruct (add_default_value c b s) as [s1|e1 x1|n1] eqn:E1;
+      [|rewrite defaults_fold_err in H; discriminate|rewrite defaults_fold_panic in H; discriminate].
+    destruct (add_default_value c' (g b) s') as [s1'|e1' x1'|n1'] eqn:E1';
+      [|rewrite defaults_fold_err in H'; discriminate|rewrite defaults_fold_panic in H'; discriminate].
+    destruct (adv_step b s s' s1 s1' (Hl b (or_introl eq_refl)) Hp Hp' Ha E1 E1') as [Ha1 [P1 P1']].
+    apply (IH s1 s1' t t' (fun b0 Hb0 => Hl b0 (or_intror Hb0)) P1 P1' Ha1 H H').
+Qed.
+
+End Unchanged.
+
+(** NON-INTERFERENCE, part 2: when no conditional default reads a changed argument, every id that
+    is not a changed argument -- in particular every argument whose defaults were kept -- reports
+    the same source and the same values in both results *)
+Theorem defaults_unchanged_agree f c i st st' : wf_inv c i = true -> wf_inv (with_defaults f c) i = true ->
+  difs_avoid_changed f c ->
+  run_inv c i = ROk st -> run_inv (with_defaults f c) i = ROk st' ->
+  forall j, ~ changed_id f c j ->
+    opt_map view (fm_get j (mt_args (mt st'))) = opt_map view (fm_get j (mt_args (mt st))).
+Proof.
+  intros Hw Hw' Hdif H H' j Hj.
+  destruct (defaults_noninterference f c i Hw Hw') as [_ [R [R' _]]].
+  apply R in H. apply R' in H'. destruct H as [st2 [A [_ C]]]. destruct H' as [st2' [A' [_ C']]].
+  pose proof (pre_defaults_det c i _ _ A A'). subst st2'.
+  pose proof (pre_defaults_pending c i st2 A) as P2.
+  destruct (wf_inv_parts c _ Hw) as [Hconv _].
+  destruct (assert_app_ids_distinct c (conv_app c Hconv)) as [Hnd _].
+  rewrite add_defaults_unfold in C, C'. change (c_args (with_defaults f c)) with (map (redef f) (c_args c)) in C'.
+  symmetry. apply (defaults_fold_agree f c Hnd Hdif (c_args c) st2 st2 st st' (fun b Hb => Hb) P2 P2); [|exact C|exact C'|exact Hj].
+  intros k _. reflexivity.
+Qed.
+
+(** the class as a boolean *)
+Fixpoint lbeq (x y : list bytes) : bool :=
+  match x, y with
+  | [], [] => true
+  | a :: x', b :: y' => beq a b && lbeq x' y'
+  | _, _ => false
+  end.
+Lemma lbeq_eq : forall x y, lbeq x y = true -> x = y.
+Proof.
+  induction x as [|a x IH]; destruct y as [|b y]; cbn [lbeq]; try discriminate; [reflexivity|].
+  intros H. apply andb_prop in H. destruct H as [H1 H2]. apply beq_eq in H1. rewrite H1, (IH y H2). reflexivity.
+Qed.
+Definition changed_b (f : arg -> list bytes) (a : arg) : bool := negb (lbeq (f a) (a_default a)).
+Definition difs_avoid_b (f : arg -> list bytes) (c : cmd) : bool :=
+  forallb (fun b => forallb (fun r => negb (existsb (fun a => beq (a_id a) (fst (fst r)) && changed_b f a) (c_args c)))
+                            (a_default_ifs b)) (c_args c).
+Lemma difs_avoid_b_spec f c : difs_avoid_b f c = true -> difs_avoid_changed f c.
+Proof.
+  unfold difs_avoid_b. intros H b r Hb Hr [a [Ha [Hid Hf]]].
+  rewrite forallb_forall in H. specialize (H b Hb). cbv beta in H. rewrite forallb_forall in H. specialize (H r Hr). cbv beta in H.
+  assert (E : existsb (fun a0 => beq (a_id a0) (fst (fst r)) && changed_b f a0) (c_args c) = true).
+  { apply existsb_exists. exists a. split; [exact Ha|]. rewrite Hid, beq_refl. cbn [andb]. unfold changed_b.
+    destruct (lbeq (f a) (a_default a)) eqn:E; [|reflexivity]. apply lbeq_eq in E. contradiction. }
+  unfold id in *. rewrite E in H. discriminate.
+Qed.
+Lemma unchanged_arg_id f c a : NoDup (map a_id (c_args c)) -> In a (c_args c) -> f a = a_default a -> ~ changed_id f c (a_id a).
+Proof.
+  intros Hnd Hin Hf [a' [Hin' [Hid Hf']]]. assert (a' = a) by (eapply nodup_map_inj; eassumption). subst a'. exact (Hf' Hf).
+Qed.
+
+(** the statement for arguments: an argument whose plain defaults were kept reports the same source and values *)
+Theorem defaults_unchanged_args f c i st st' : wf_inv c i = true -> wf_inv (with_defaults f c) i = true ->
+  difs_avoid_b f c = true ->
+  run_inv c i = ROk st -> run_inv (with_defaults f c) i = ROk st' ->
+  forall a, In a (c_args c) -> f a = a_default a ->
+    opt_map view (fm_get (a_id a) (mt_args (mt st'))) = opt_map view (fm_get (a_id a) (mt_args (mt st))).
+Proof.
+  intros Hw Hw' Hd H H' a Hin Hf.
+  apply (defaults_unchanged_agree f c i st st' Hw Hw' (difs_avoid_b_spec f c Hd) H H').
+  destruct (wf_inv_parts c _ Hw) as [Hconv _].
+  destruct (assert_app_ids_distinct c (conv_app c Hconv)) as [Hnd _].
+  apply unchanged_arg_id; assumption.
+Qed.
